@@ -204,10 +204,16 @@ func (cfg *Config) paramExp(pe *syntax.ParamExp) (string, error) {
 				}
 				return n
 			}
+			pastEnd := false
 			if pe.Slice.Offset != nil {
+				pastEnd = sliceOffset > len(rs)
 				rs = rs[slicePos(sliceOffset):]
 			}
 			if pe.Slice.Length != nil {
+				if sliceLen < 0 && len(rs)+sliceLen < 0 && !pastEnd && set {
+					// A negative length counts from the end, which here lies before the offset.
+					return "", fmt.Errorf("%d: substring expression < 0", sliceLen)
+				}
 				rs = rs[:slicePos(sliceLen)]
 			}
 			str = string(rs)
